@@ -603,6 +603,7 @@ func runC17(a *Args) error {
 		"stdout {valid reply, each mandatory metadata field removed / empty / null, wrong names, wrong and good contract version lists, duplicate keys, non-JSON, empty, wrong JSON types, larger than the cap, exactly the cap} x " +
 		"exit code {0, non-zero} x stderr {empty, structured error with every code, partial structured errors, incomplete, non-JSON, huge, structured error beyond / within / exactly at the cap} x " +
 		"timing {immediate, sleeping past a deadline or a cancellation, descendant holding the pipes long / briefly, both} x file {executable, not executable, missing, directory}; " +
+		"request side: request {small, 256 KiB - 1 MiB} x plugin {reads its stdin, never reads it} x descendant inheriting stdin + stdout + stderr {none, 16 s, < 1 s} x context {background, deadline, cancelled later, far deadline}, same bound on the return time (every call under a watchdog that kills the descendant at the bound); " +
 		"file name different from the name given to NewCLIPlugin (plugin reporting either); calls whose process is never started (file without x bit, context already done) while the plugin would have printed a reply / a structured error / text; structured errors with metadata maps (nil, empty, one, several unsorted and duplicate keys) compared entry by entry; " +
 		"copy cases: the real io.Copy from a reader that delivers scripted chunks into the real LimitedWriter over a real bytes.Buffer (the wiring of execCommander.Output): total below / at / above the limit, the crossing chunk at every position, exact fit followed by more output; observed: bytes written, error (nil / short write / limit), remaining budget, chunks consumed, bytes held and that they are the beginning of the stream; " +
 		"concurrency family: K goroutines in ONE re-executed host process, each making many calls of the real CLIPlugin methods (five commands, one plugin called by everybody and three others, a shared CLIPlugin per plugin or a fresh one) against plugin processes that derive reply, stderr and exit code from the specification carried in the request; reply sizes tiny / 64 KiB / 300-900 KiB / > 1 MiB, a quarter of the processes failing with their own structured error (or none), a context logger that yields between the end of the process and the decoding for 70 % of the calls; every call judged against its own process (response deeply equal to the decoding of the printed bytes; own error code, message and metadata), a sample emitted as ordinary cases, anomalies as implementation violations; " +
@@ -653,7 +654,8 @@ func runC17(a *Args) error {
 		term := CApp("mk_case", CN(c.ID), CApp("IProc", terms[c.ID]), CApp("OProc", c.obsTerm()))
 		plainValid := c.Out == validStdout(c.Cmd, c.Name) && c.OutPA == 0 && c.OutPB == 0
 		nontriv := c.File == "FExec" && (c.Exit != 0 || c.errLen() > 0 || !plainValid || c.slow() || c.heavy() || c.DeadlineMs >= 0)
-		key := fmt.Sprintf("%d.%d|%d|%s|%s|%d|%d|%d|%d|%v|%d|%s|%d|%d|%s|%d", c.Group, c.Step, c.Cmd, c.Name, c.File, c.Exit, c.SleepMs, c.DescMs, c.DeadlineMs, c.Cancel, c.OutPB, c.Out, c.OutPA, c.ErrPB, c.Err, c.ErrPA)
+		key := fmt.Sprintf("%d.%d|%d|%s|%s|%d|%d|%d|%d|%v|%d|%s|%d|%d|%s|%d", c.Group, c.Step, c.Cmd, c.Name, c.File, c.Exit, c.SleepMs, c.DescMs, c.DeadlineMs, c.Cancel, c.OutPB, c.Out, c.OutPA, c.ErrPB, c.Err, c.ErrPA) +
+			fmt.Sprintf("|%v|%v|%v", c.reqLarge(), c.NoStdin, c.DescStdin)
 		desc := *c
 		if len(desc.Err) > 300 {
 			desc.Err = desc.Err[:300] + fmt.Sprintf("...(%d bytes)", len(c.Err))
@@ -664,6 +666,9 @@ func runC17(a *Args) error {
 			w.Count("history_step", fmt.Sprint(c.Step))
 		}
 		w.Count("context", ctxKind(c))
+		if strings.HasPrefix(c.Fam, "stdin:") {
+			w.Count("stdin_side", fmt.Sprintf("request_large=%v plugin_reads_stdin=%v descendant_holds_stdin=%v", c.reqLarge(), !c.NoStdin, c.DescStdin))
+		}
 		w.Count("command", c.CmdName)
 		w.Count("result", strings.SplitN(c.Result, " ", 2)[0])
 		w.Count("in_time", fmt.Sprint(c.InTime))
